@@ -183,50 +183,71 @@ def _rand_u(rng, h, w):
     return [int(x) for x in np.flatnonzero(m)]
 
 
+def _guard(rec, ok, body):
+    """run the API calls; an exception of the code under test becomes a rejected record (`raised`), not a driver crash"""
+    try:
+        body()
+        rec["raised"] = False
+    except core.MachineryError:
+        raise
+    except Exception as e:  # noqa: BLE001 -- the property promises a result for every input in its domain
+        rec["raised"] = True
+        rec["error"] = f"{type(e).__name__}: {e}"[:300]
+    rec["lat_ok"] = ok[0]
+    return rec
+
+
 def rec_resize_array(h, w, u, h2, w2, mpad, g, rng):
     import autoarray as aa
 
     ok = [True]
-    mask = _mask(h, w, u, g)
-    real = _reals(rng, h, w)
-    a = aa.Array2D(values=_tags(h, w), mask=mask)
-    b = aa.Array2D(values=real, mask=mask)
     rec = _base("resize_array", h, w, u, g)
     rec.update({"h2": h2, "w2": w2, "mpad": mpad})
-    rec["gin_y"], rec["gin_x"] = _all_coords(a.mask, g["tau"], ok)
-    _array_result(rec, a.resized_from(new_shape=(h2, w2), mask_pad_value=mpad), h * w, g["tau"], ok,
-                  b.resized_from(new_shape=(h2, w2), mask_pad_value=mpad), real)
-    rec["lat_ok"] = ok[0]
-    return rec
+
+    def body():
+        mask = _mask(h, w, u, g)
+        real = _reals(rng, h, w)
+        a = aa.Array2D(values=_tags(h, w), mask=mask)
+        b = aa.Array2D(values=real, mask=mask)
+        rec["gin_y"], rec["gin_x"] = _all_coords(a.mask, g["tau"], ok)
+        _array_result(rec, a.resized_from(new_shape=(h2, w2), mask_pad_value=mpad), h * w, g["tau"], ok,
+                      b.resized_from(new_shape=(h2, w2), mask_pad_value=mpad), real)
+
+    return _guard(rec, ok, body)
 
 
 def rec_resize_mask(h, w, u, h2, w2, pad, g):
     ok = [True]
-    mask = _mask(h, w, u, g)
-    res = mask.resized_from(new_shape=(h2, w2), pad_value=pad)
     rec = _base("resize_mask", h, w, u, g)
-    rec.update({"h2": h2, "w2": w2, "pad": pad, "oh": int(res.shape[0]), "ow": int(res.shape[1]), "um": _um(res)})
-    rec["gin_y"], rec["gin_x"] = _all_coords(mask, g["tau"], ok)
-    rec["gout_y"], rec["gout_x"] = _all_coords(res, g["tau"], ok)
-    rec["lat_ok"] = ok[0]
-    return rec
+    rec.update({"h2": h2, "w2": w2, "pad": pad})
+
+    def body():
+        mask = _mask(h, w, u, g)
+        res = mask.resized_from(new_shape=(h2, w2), pad_value=pad)
+        rec.update({"oh": int(res.shape[0]), "ow": int(res.shape[1]), "um": _um(res)})
+        rec["gin_y"], rec["gin_x"] = _all_coords(mask, g["tau"], ok)
+        rec["gout_y"], rec["gout_x"] = _all_coords(res, g["tau"], ok)
+
+    return _guard(rec, ok, body)
 
 
 def rec_grow_shrink(h, w, u, h2, w2, mpad, g, rng):
     import autoarray as aa
 
     ok = [True]
-    mask = _mask(h, w, u, g)
-    real = _reals(rng, h, w)
-    a = aa.Array2D(values=_tags(h, w), mask=mask)
-    b = aa.Array2D(values=real, mask=mask)
     rec = _base("grow_shrink", h, w, u, g)
     rec.update({"h2": h2, "w2": w2, "mpad": mpad})
-    rec["gin_y"], rec["gin_x"] = _all_coords(a.mask, g["tau"], ok)
-    f = lambda x: x.resized_from(new_shape=(h2, w2), mask_pad_value=mpad).resized_from(new_shape=(h, w))
-    _array_result(rec, f(a), h * w, g["tau"], ok, f(b), real)
-    rec["lat_ok"] = ok[0]
-    return rec
+
+    def body():
+        mask = _mask(h, w, u, g)
+        real = _reals(rng, h, w)
+        a = aa.Array2D(values=_tags(h, w), mask=mask)
+        b = aa.Array2D(values=real, mask=mask)
+        rec["gin_y"], rec["gin_x"] = _all_coords(a.mask, g["tau"], ok)
+        f = lambda x: x.resized_from(new_shape=(h2, w2), mask_pad_value=mpad).resized_from(new_shape=(h, w))
+        _array_result(rec, f(a), h * w, g["tau"], ok, f(b), real)
+
+    return _guard(rec, ok, body)
 
 
 def rec_kernel(api, h, w, u, kh, kw, mpad, g, rng):
@@ -234,23 +255,25 @@ def rec_kernel(api, h, w, u, kh, kw, mpad, g, rng):
     import autoarray as aa
 
     ok = [True]
-    mask = _mask(h, w, u, g)
-    real = _reals(rng, h, w)
-    a = aa.Array2D(values=_tags(h, w), mask=mask)
-    b = aa.Array2D(values=real, mask=mask)
     rec = _base(api, h, w, u, g)
     rec.update({"kh": kh, "kw": kw, "mpad": mpad})
-    rec["gin_y"], rec["gin_x"] = _all_coords(a.mask, g["tau"], ok)
-    if api == "pad":
-        f = lambda x: x.padded_before_convolution_from(kernel_shape=(kh, kw), mask_pad_value=mpad)
-    elif api == "trim":
-        f = lambda x: x.trimmed_after_convolution_from(kernel_shape=(kh, kw))
-    else:
-        f = lambda x: x.padded_before_convolution_from(kernel_shape=(kh, kw), mask_pad_value=mpad) \
-            .trimmed_after_convolution_from(kernel_shape=(kh, kw))
-    _array_result(rec, f(a), h * w, g["tau"], ok, f(b), real)
-    rec["lat_ok"] = ok[0]
-    return rec
+
+    def body():
+        mask = _mask(h, w, u, g)
+        real = _reals(rng, h, w)
+        a = aa.Array2D(values=_tags(h, w), mask=mask)
+        b = aa.Array2D(values=real, mask=mask)
+        rec["gin_y"], rec["gin_x"] = _all_coords(a.mask, g["tau"], ok)
+        if api == "pad":
+            f = lambda x: x.padded_before_convolution_from(kernel_shape=(kh, kw), mask_pad_value=mpad)
+        elif api == "trim":
+            f = lambda x: x.trimmed_after_convolution_from(kernel_shape=(kh, kw))
+        else:
+            f = lambda x: x.padded_before_convolution_from(kernel_shape=(kh, kw), mask_pad_value=mpad) \
+                .trimmed_after_convolution_from(kernel_shape=(kh, kw))
+        _array_result(rec, f(a), h * w, g["tau"], ok, f(b), real)
+
+    return _guard(rec, ok, body)
 
 
 def rec_trimmed_array_from(hp, wp, h, w, u_mask, g, rng):
@@ -258,17 +281,19 @@ def rec_trimmed_array_from(hp, wp, h, w, u_mask, g, rng):
     import autoarray as aa
 
     ok = [True]
-    mask = _mask(hp, wp, u_mask, g)
-    real = _reals(rng, hp, wp)
-    pa = aa.Array2D.no_mask(values=_tags(hp, wp), pixel_scales=_ps(g), origin=_org(g))
-    pb = aa.Array2D.no_mask(values=real, pixel_scales=_ps(g), origin=_org(g))
     rec = _base("trimmed_array_from", hp, wp, list(range(hp * wp)), g)
     rec.update({"h2": h, "w2": w})
-    rec["gin_y"], rec["gin_x"] = _all_coords(pa.mask, g["tau"], ok)
-    _array_result(rec, mask.trimmed_array_from(padded_array=pa, image_shape=(h, w)), hp * wp, g["tau"], ok,
-                  mask.trimmed_array_from(padded_array=pb, image_shape=(h, w)), real)
-    rec["lat_ok"] = ok[0]
-    return rec
+
+    def body():
+        mask = _mask(hp, wp, u_mask, g)
+        real = _reals(rng, hp, wp)
+        pa = aa.Array2D.no_mask(values=_tags(hp, wp), pixel_scales=_ps(g), origin=_org(g))
+        pb = aa.Array2D.no_mask(values=real, pixel_scales=_ps(g), origin=_org(g))
+        rec["gin_y"], rec["gin_x"] = _all_coords(pa.mask, g["tau"], ok)
+        _array_result(rec, mask.trimmed_array_from(padded_array=pa, image_shape=(h, w)), hp * wp, g["tau"], ok,
+                      mask.trimmed_array_from(padded_array=pb, image_shape=(h, w)), real)
+
+    return _guard(rec, ok, body)
 
 
 def _imaging(h, w, mask_or_none, g, data, noise, kernel):
@@ -291,9 +316,9 @@ def rec_autopad(h, w, u, kh, kw, g, rng):
     n = h * w
     tau = g["tau"]
     rec = _base("autopad", h, w, u, g)
-    rec.update({"kh": kh, "kw": kw, "raised": False, "oh": 0, "ow": 0, "src_d": [], "src_n": [], "um": [],
-                "pre_y": [], "pre_x": [], "post_y": [], "post_x": [], "post_d": [], "post_n": [], "payload_ok": True})
-    try:
+    rec.update({"kh": kh, "kw": kw})
+
+    def body():
         mask = _mask(h, w, u, g)
         ds = _imaging(h, w, None, g, _tags(h, w), _tags(h, w, base=n + 1), (kh, kw))
         # the coordinates the pixels have in the dataset before the mask is applied
@@ -315,11 +340,8 @@ def rec_autopad(h, w, u, kh, kw, g, rng):
                              and _payload_ok(rec["src_n"], rn.ravel(), r2.noise_map.native.array)
                              and _payload_ok(rec["post_d"], rd.ravel(), r2.data.slim.array)
                              and _payload_ok(rec["post_n"], rn.ravel(), r2.noise_map.slim.array))
-    except Exception as e:  # the property promises a result for every mask and odd kernel
-        rec["raised"] = True
-        rec["error"] = f"{type(e).__name__}: {e}"[:200]
-    rec["lat_ok"] = ok[0]
-    return rec
+
+    return _guard(rec, ok, body)
 
 
 def rec_dataset_trim(h, w, u, kh, kw, g, rng):
@@ -327,38 +349,45 @@ def rec_dataset_trim(h, w, u, kh, kw, g, rng):
     ok = [True]
     n = h * w
     tau = g["tau"]
-    mask = _mask(h, w, u, g)
     rec = _base("dataset_trim", h, w, u, g)
     rec.update({"kh": kh, "kw": kw})
-    rec["gin_y"], rec["gin_x"] = _all_coords(mask, tau, ok)
-    t = _imaging(h, w, mask, g, _tags(h, w), _tags(h, w, base=n + 1), None).trimmed_after_convolution_from(kernel_shape=(kh, kw))
-    nat = np.asarray(t.data.native.array, dtype=float)
-    rec["oh"], rec["ow"] = int(nat.shape[0]), int(nat.shape[1])
-    rec["src_d"] = _src(nat, n)
-    rec["src_n"] = _src(np.asarray(t.noise_map.native.array, dtype=float), n, base=n + 1)
-    rec["post_d"] = _src(np.asarray(t.data.slim.array, dtype=float), n)
-    rec["post_y"], rec["post_x"] = _grid_yx(t.grids.uniform.array, tau, ok)
-    rd, rn = _reals(rng, h, w), _reals(rng, h, w, positive=True)
-    r = _imaging(h, w, mask, g, rd, rn, None).trimmed_after_convolution_from(kernel_shape=(kh, kw))
-    rec["payload_ok"] = (_payload_ok(rec["src_d"], rd.ravel(), r.data.native.array)
-                         and _payload_ok(rec["src_n"], rn.ravel(), r.noise_map.native.array))
-    rec["lat_ok"] = ok[0]
-    return rec
+
+    def body():
+        mask = _mask(h, w, u, g)
+        rec["gin_y"], rec["gin_x"] = _all_coords(mask, tau, ok)
+        t = _imaging(h, w, mask, g, _tags(h, w), _tags(h, w, base=n + 1), None) \
+            .trimmed_after_convolution_from(kernel_shape=(kh, kw))
+        nat = np.asarray(t.data.native.array, dtype=float)
+        rec["oh"], rec["ow"] = int(nat.shape[0]), int(nat.shape[1])
+        rec["src_d"] = _src(nat, n)
+        rec["src_n"] = _src(np.asarray(t.noise_map.native.array, dtype=float), n, base=n + 1)
+        rec["post_d"] = _src(np.asarray(t.data.slim.array, dtype=float), n)
+        rec["post_y"], rec["post_x"] = _grid_yx(t.grids.uniform.array, tau, ok)
+        rd, rn = _reals(rng, h, w), _reals(rng, h, w, positive=True)
+        r = _imaging(h, w, mask, g, rd, rn, None).trimmed_after_convolution_from(kernel_shape=(kh, kw))
+        rec["payload_ok"] = (_payload_ok(rec["src_d"], rd.ravel(), r.data.native.array)
+                             and _payload_ok(rec["src_n"], rn.ravel(), r.noise_map.native.array))
+
+    return _guard(rec, ok, body)
 
 
 def rec_zoom(h, w, u, b, g, rng):
     import autoarray as aa
 
-    mask = _mask(h, w, u, g)
-    real = _reals(rng, h, w)
-    z = aa.Array2D(values=_tags(h, w), mask=mask).zoomed_around_mask(buffer=b)
-    zr = aa.Array2D(values=real, mask=mask).zoomed_around_mask(buffer=b)
-    nat = np.asarray(z.native.array, dtype=float)
+    ok = [True]
     rec = _base("zoom", h, w, u, g)
-    rec.update({"b": b, "oh": int(nat.shape[0]), "ow": int(nat.shape[1]), "src": _src(nat, h * w)})
-    rec["payload_ok"] = _payload_ok(rec["src"], real.ravel(), zr.native.array)
-    rec["lat_ok"] = True
-    return rec
+    rec.update({"b": b})
+
+    def body():
+        mask = _mask(h, w, u, g)
+        real = _reals(rng, h, w)
+        z = aa.Array2D(values=_tags(h, w), mask=mask).zoomed_around_mask(buffer=b)
+        zr = aa.Array2D(values=real, mask=mask).zoomed_around_mask(buffer=b)
+        nat = np.asarray(z.native.array, dtype=float)
+        rec.update({"oh": int(nat.shape[0]), "ow": int(nat.shape[1]), "src": _src(nat, h * w)})
+        rec["payload_ok"] = _payload_ok(rec["src"], real.ravel(), zr.native.array)
+
+    return _guard(rec, ok, body)
 
 
 # ------------------------------------------------------------------------------------------------------------
@@ -485,6 +514,38 @@ def random_instances(rng, n_resize, n_kernel, n_mask, max_in=12, max_out=15, max
     return out
 
 
+def apalache_round_trips(ctx, timeout=600):
+    """Unbounded-size proof of the two round-trip theorems per axis (spec/ResizeAxis.tla) with Apalache.
+    A refuted theorem means the specification is inconsistent (machinery failure); an unavailable or timed-out
+    Apalache is only noted -- TLC has checked the same theorems on every shape inside the bound."""
+    import os
+    import subprocess
+
+    exe = "/opt/veriftools/apalache/bin/apalache-mc"
+    if not os.path.exists(exe):
+        ctx.note("apalache-mc not installed: unbounded round-trip theorems not discharged (bounded TLC result stands)")
+        return
+    out = ctx.work / "apalache"
+    env = dict(os.environ)
+    env.pop("JAVA_TOOL_OPTIONS", None)
+    cmd = [exe, "check", "--length=0", "--init=Init", "--next=Next", "--inv=Inv", f"--out-dir={out}",
+           f"--run-dir={out}/run", str(core.SPEC / "ResizeAxis.tla")]
+    try:
+        p = subprocess.run(cmd, capture_output=True, text=True, timeout=timeout, env=env, cwd=str(ctx.work))
+    except subprocess.TimeoutExpired:
+        ctx.note(f"apalache timed out after {timeout}s: unbounded round-trip theorems not discharged")
+        return
+    txt = p.stdout + p.stderr
+    if "The outcome is: NoError" in txt and p.returncode == 0:
+        ctx.note("Apalache: PadThenTrimIsIdentity, GrowThenShrinkUpper/Lower hold per axis for ALL lengths n>=1, m>=n, k>=0 "
+                 "(ResizeAxis.tla, --length=0: invariants of the unconstrained initial states)")
+        ctx.tlc_cmds.append("ResizeAxis[apalache]: outcome NoError (unbounded n, m, k, t)")
+        return
+    if "The outcome is: Error" in txt:
+        raise core.MachineryError(f"Apalache refuted a round-trip theorem of ResizeAxis.tla: {txt[-1500:]}")
+    ctx.note(f"apalache did not produce a verdict (rc={p.returncode}): {txt[-300:]!r}")
+
+
 def validate(ctx, records, tag, chunk=1500):
     import concurrent.futures as cf
 
@@ -556,6 +617,8 @@ def run(ctx):
         by_api[r["api"]] = by_api.get(r["api"], 0) + 1
     ctx.note(f"{len(insts)} exhaustive instances + {len(rnd)} random instances -> {len(recs)} records judged by Trace_Resize "
              f"({by_api}); rejected {len(rej)}")
+    if not quick:
+        apalache_round_trips(ctx)
     ctx.assumptions = [
         "data movement is value-independent: re-checked per record with random real payloads, bit for bit through the same source map",
         "coordinates are compared relationally (output pixel vs the input pixel it shows), both read from the real API and "
